@@ -15,13 +15,15 @@ ASSUMPTIONS = ["torch.tensordot / autograd as modelled / trusted; exact float ar
                "the random initialisation's distribution is not part of the property"]
 
 
-def one(cases, rng, tier, d, rep, dtname, init):
+def one(cases, rng, tier, d, rep, dtname, init, preset=None):
     dt = DTYPES[dtname]
     sin = rand_modes(rng, d, 1, 5)
     sout = rand_modes(rng, d, 1, 5)
     if d >= 3:
         sin = [min(v, 3) for v in sin]; sout = [min(v, 3) for v in sout]
     R = rand_ranks(rng, d, 3)
+    if preset is not None:
+        sin, sout, R = [list(v) for v in preset]
     nb = rep % 4
     bshape = [rng.randint(1, 3) for _ in range(nb)]
     lo, hi = (-2, 2) if dtname == "f64" else (-1, 1)
@@ -198,6 +200,12 @@ def run(res, rng, tier, known):
     for d in orders:
         for rep in range(reps):
             one(cases, rng, tier, d, rep, ["f64", "f32"][ci % 2], ["He", "Glo"][(ci // 2) % 2]); ci += 1
+    # deterministic family: four modes with strongly asymmetric size / rank profiles (a wide last input mode, a wide first output mode, a
+    # size-1 output mode, equal middle output modes) — any sweep-order or cost-driven variant of the contraction must give the same map
+    fam4 = [([2, 2, 2, 5], [5, 2, 2, 2], [1, 2, 3, 2, 1]), ([2, 3, 2, 4], [4, 3, 3, 2], [1, 2, 2, 3, 1]), ([2, 2, 3, 5], [4, 2, 3, 1], [1, 3, 2, 2, 1]),
+            ([5, 2, 2, 2], [2, 2, 2, 5], [1, 2, 3, 2, 1]), ([1, 1, 1, 3], [2, 1, 2, 1], [1, 2, 2, 2, 1])]
+    for fi, pre in enumerate(fam4):
+        one(cases, rng, tier, 4, fi, ["f64", "f32"][fi % 2], ["He", "Glo"][(fi // 2) % 2], preset=pre)
     for hi in range(6 if tier == "quick" else 40):
         history(cases, rng, tier, hi, [2, 3, 2][hi % 3])
     # invalid initializer must raise InvalidArguments
